@@ -109,6 +109,13 @@ func MakeUpdater(u *cs.Updater, out *cs.Outcome, keepDocs bool) func(doc *docume
 				n.Set(k, cs.Clone(u.Values[k].X))
 			}
 			return n
+		case "poison":
+			n := doc.Copy()
+			n.Set(u.Field, cs.Clone(u.Value.X))
+			if uv, ok := doc.Get("u").(int64); ok && uv == u.N {
+				n.Set("_expiresAt", "never")
+			}
+			return n
 		case "incr":
 			n := doc.Copy()
 			switch x := n.Get(u.Field).(type) {
